@@ -141,7 +141,7 @@ pub fn run(env: &Env, run: &Run) -> (Stats, Coverage) {
     st.sample(json!({"profile": "UsernameCasePreserved", "input": ["U+FF76", "U+FF9E"], "expected": "Ok(U+30AC): width mapping then NFC composes"}));
     st.sample(json!({"profile": "UsernameCaseMapped", "input": ["U+05D0", "a"], "expected": "Err(Invalid) from the directionality rule"}));
     let cov = Coverage {
-        rule: format!("every string of length <= {} over a 28-symbol alphabet chosen so that every pair of steps interacts (width x validation, width x NFC, case x NFC, case x validation order, contextual, RTL) x 2 profiles x {{prepare, enforce}} + pumped runs and ASCII block strings + every scalar value in 7 templates and next to each of its bit-16..20 aliases; oracle = width(UnicodeData decomposition tags) -> non-empty -> IdentifierClass(first offender) [-> lowercase] -> NFC -> non-empty -> directionality (implementation's own rule as a black box, C09 owns it); non-trivial = at least two steps change the string, or the failure comes from step >= 3", n),
+        rule: format!("every string of length <= {} over a 28-symbol alphabet chosen so that every pair of steps interacts (width x validation, width x NFC, case x NFC, case x validation order, contextual, RTL) x 2 profiles x {{prepare, enforce}} + pumped runs and ASCII block strings + every scalar value in 7 templates and next to each of its 16 other-plane aliases; oracle = width(UnicodeData decomposition tags) -> non-empty -> IdentifierClass(first offender) [-> lowercase] -> NFC -> non-empty -> directionality (implementation's own rule as a black box, C09 owns it); non-trivial = at least two steps change the string, or the failure comes from step >= 3", n),
         alphabet: json!(sigma.iter().map(|c| format!("U+{:04X}", *c as u32)).collect::<Vec<_>>()),
         bound_completed: format!("length <= {} ({} strings) x 2 profiles x 2 ops; sweep 1,112,064 x 7 templates x 2 x 2", n, tree_size(sigma.len(), n)),
         exhaustive: false,
